@@ -467,3 +467,5 @@ def run(ctx):
     r02_8(ctx, layers)
     r02_9(ctx, layers)
     r02_10(ctx, layers)
+    from .c08 import r08_8
+    r08_8(ctx, rid="R02.11")
